@@ -24,7 +24,7 @@ def run(res, tier, replay=None):
     c01i.run(prog, res, floor=18, prims=prims, advisory_filter=c01.scope_filter())
     c01i.run_views(prog, res, floor=5, prims=prims, advisory_filter=c01.scope_filter())
     c01i.run_extents(prog, res, floor=3, prims=prims, advisory_filter=c01.scope_filter())
-    c01i.run_alloc(prog, res, floor=2, prims=prims, advisory_filter=c01.scope_filter())
+    c01i.run_alloc(prog, res, floor=4, prims=prims, advisory_filter=c01.scope_filter())
     c01i.run_raise(prog, res, floor=3)
     c01i.witnesses(prog, res)
     if tier == "thorough":
